@@ -111,11 +111,10 @@ fn user_container_of(v: Val, t: WTy) -> Result<u64, String> {
 /// structured set that fall into a range are dropped so that nothing is evaluated twice.
 fn interp_words(t: WTy, thorough: bool) -> (Vec<u64>, Vec<(u64, u64)>) {
     let mut ranges: Vec<(u64, u64)> = Vec::new();
-    if let Some((n, _)) = t.int_width() {
-        if n <= 16 {
-            for h in refabi::high_patterns(thorough) {
-                ranges.push((h << 16, (h << 16) + 0x1_0000));
-            }
+    let narrow = t == WTy::Bool || t.int_width().map_or(false, |(n, _)| n <= 16);
+    if narrow {
+        for h in refabi::high_patterns(thorough) {
+            ranges.push((h << 16, (h << 16) + 0x1_0000));
         }
     }
     if t == WTy::Char {
@@ -192,7 +191,7 @@ fn interp_cell(lang: Lang, probes: &Probes, site: &'static str, t: WTy, thorough
 // ------------------------------------------------------------------------------------------
 // native path
 
-const SWEEP32: [WTy; 7] = [WTy::U8, WTy::S8, WTy::U16, WTy::S16, WTy::U32, WTy::S32, WTy::F32];
+const SWEEP32: [WTy; 8] = [WTy::Bool, WTy::U8, WTy::S8, WTy::U16, WTy::S16, WTy::U32, WTy::S32, WTy::F32];
 
 fn sweep_ranges(t: WTy, thorough: bool) -> (Vec<(u64, u64)>, bool) {
     if t == WTy::Char {
@@ -203,7 +202,7 @@ fn sweep_ranges(t: WTy, thorough: bool) -> (Vec<(u64, u64)>, bool) {
         return ((0..16).map(|k| (k * step, (k + 1) * step)).collect(), true);
     }
     match t {
-        WTy::U8 | WTy::S8 | WTy::U16 | WTy::S16 => {
+        WTy::Bool | WTy::U8 | WTy::S8 | WTy::U16 | WTy::S16 => {
             (refabi::high_patterns(false).into_iter().map(|h| (h << 16, (h << 16) + 0x1_0000)).collect(), false)
         }
         _ => (
@@ -335,6 +334,15 @@ fn native_run(scratch: &Scratch, gens: &BTreeMap<String, BTreeMap<String, String
         for site in SITES {
             for &t in &sweep_types {
                 let (ranges, _) = sweep_ranges(t, false);
+                if t == WTy::Bool && builds[bi].name == "rust-debug-assertions" {
+                    // `bool_lift` panics on most of these inputs under debug assertions; a panic
+                    // costs microseconds, so spread the windows over processes
+                    for r in &ranges {
+                        jobs.push(sweep_job(bi, site, t, &[*r], false));
+                        meta.push(("sweep", bi, site, t));
+                    }
+                    continue;
+                }
                 jobs.push(sweep_job(bi, site, t, &ranges, false));
                 meta.push(("sweep", bi, site, t));
             }
@@ -344,17 +352,20 @@ fn native_run(scratch: &Scratch, gens: &BTreeMap<String, BTreeMap<String, String
     // builds side by side; chunks not started before the budget ends are skipped and the probe
     // is then not listed under full_domain. The two Rust builds differ only in `bool_lift` /
     // `char_lift` (cfg!(debug_assertions)); the `as` casts of the swept types are the same code,
-    // so only one of them is swept.
+    // so only one of them is swept. Bool: the release build is swept over all 2^32 (`val != 0`
+    // after `as u8`); the debug-assertions build panics on 254/256 of all inputs, which cannot
+    // be swept at microseconds per panic, and keeps the windows.
     let budget_s: u64 = std::env::var("C14_SWEEP_BUDGET_S").ok().and_then(|s| s.parse().ok()).unwrap_or(400);
     let deadline = std::time::Instant::now() + std::time::Duration::from_secs(budget_s);
     let mut chunk_groups: BTreeMap<(usize, &'static str, WTy), (u32, u32)> = BTreeMap::new(); // (planned, done)
     if thorough {
-        for t in [WTy::S8, WTy::S16, WTy::U8, WTy::U16, WTy::U32, WTy::S32, WTy::F32] {
+        for t in [WTy::S8, WTy::S16, WTy::Bool, WTy::U8, WTy::U16, WTy::U32, WTy::S32, WTy::F32] {
             let (ranges, _) = sweep_ranges(t, true);
             for r in ranges {
                 for site in SITES {
                     for (bi, b) in builds.iter().enumerate() {
-                        if b.valid_only {
+                        let skip = if t == WTy::Bool { b.name == "rust-debug-assertions" } else { b.valid_only };
+                        if skip {
                             continue;
                         }
                         jobs.push(sweep_job(bi, site, t, &[r], true));
@@ -640,7 +651,6 @@ fn main() {
     let mut outcomes: BTreeMap<&str, u64> = BTreeMap::new();
     let mut samples = Vec::new();
     let mut full32: BTreeMap<String, Vec<String>> = BTreeMap::new();
-    let mut bool_obs: BTreeMap<String, Value> = BTreeMap::new();
     let mut char_obs: BTreeMap<String, Value> = BTreeMap::new();
     for c in &cells {
         evaluations += c.evals;
@@ -665,9 +675,6 @@ fn main() {
         e["probes"] = json!(e["probes"].as_u64().unwrap() + 1);
         if c.exhaustive_32 {
             full32.entry(c.build.clone()).or_default().push(format!("{}-{}", c.site, c.t.name()));
-        }
-        if c.t == WTy::Bool && c.unj_trap + c.unj_ret > 0 {
-            bool_obs.insert(format!("{}:{}", c.build, c.site), json!({"returned_true": c.unj_true, "returned_false": c.unj_ret - c.unj_true, "trapped": c.unj_trap}));
         }
         if c.t == WTy::Char && c.unj_trap + c.unj_ret > 0 {
             char_obs.insert(format!("{}:{}", c.build, c.site), json!({"returned": c.unj_ret, "trapped": c.unj_trap}));
@@ -699,20 +706,19 @@ fn main() {
             "u32_s32_f32_interpreted": format!("structured 32-bit set ({n32} words): all patterns with <=2 bits set or <=2 bits clear, byte walks on 0 / all-ones background, width and char boundaries with neighbours and complements; f32 adds signalling/quiet NaN payload walks"),
             "u64_s64_f64": format!("structured 64-bit set ({n64} words; f64 adds NaN payload walks) — a bound, not the whole domain"),
             "char": if thorough { "every scalar value (and every non-scalar code below 0x120000 as unjudged input), plus the structured 32-bit set" } else { "native: every code below 0x120000; interpreted: 0..0x3000, 0xD000..0xE100, 0x10FF00..0x110100 + structured 32-bit set" },
-            "bool": "false/true lowered; 0 and 1 lifted (other core values observed, not judged)",
+            "bool": if thorough { "false/true lowered (must be exactly 0/1); lift judged as i != 0 over all 2^32 core i32 values (c, cpp, rust-release), 2^16 low halves x 16 high-half patterns + structured set (rust-debug-assertions: panics on most inputs), 2^16 x 74 high-half patterns + structured set (interpreted)" } else { "false/true lowered (must be exactly 0/1); lift judged as i != 0 over 2^16 low halves x 16 high-half patterns + the structured 32-bit set, every backend" },
         },
         "full_domain": full32,
         "per_build": per_build,
         "distinct_outcomes": outcomes,
         "output_bits_seen_both_0_and_1": toggled,
-        "bool_lift_of_non_0_1_inputs_observed": bool_obs,
         "char_lift_of_non_scalar_values_observed": char_obs,
         "native": native_info,
         "phase_wall_s": {"interpreted": (interp_s * 100.0).round() / 100.0, "native_incl_compile": (native_s * 100.0).round() / 100.0},
     });
     let assumptions = vec![
         "Reference = Canonical ABI lower_flat/lift_flat of the scalar types as stated in the property: unsigned zero-extended / signed sign-extended into the core i32/i64 on lowering; narrow lifts take the low bits with the type's own signedness whatever the upper bits are; 64-bit and float values bit-exact; char = scalar value; bool lowered to exactly 0/1.".to_string(),
-        "Bool lift is judged on core 0 and 1 only (property: 'booleans as 0/1'); what each backend does with other i32 values is recorded under bool_lift_of_non_0_1_inputs_observed and never judged. Char lift is judged on scalar values only; non-scalar inputs may trap or return and are recorded, not judged. The Rust release build (debug-assertions off) is never given a non-scalar char because the generated code is undefined there (from_u32_unchecked).".to_string(),
+        "Bool: lowering must produce exactly 0 or 1; lifting is judged over the whole core i32 with the spec oracle convert_int_to_bool(i) = (i != 0) — lift_flat takes the whole i32 for bool, there is no masking as for u8 — so 0x100 or 0x80000000 must lift to true; a trap on any i32 is a violation (`unexpected-trap`). Char lift is judged on scalar values only; non-scalar inputs may trap or return and are recorded, not judged. The Rust release build (debug-assertions off) is never given a non-scalar char because the generated code is undefined there (from_u32_unchecked).".to_string(),
         "Float bit-exactness is stricter than the spec (which lets lifts canonicalise NaNs) because the property demands 'reinterpreted bit-exactly'; observed on x86-64 SSE / by-value passing of the host compilers.".to_string(),
         "Rust/C/C++: the host compilers (rustc, gcc, g++; -O2) stand in for the wasm32 toolchains: the conversions involve only fixed-width integer and float types whose semantics do not depend on the target. Rust: the cfg(not(wasm32)) `unreachable!()` import shim is redirected to a recording stub; nothing else in the generated file is touched.".to_string(),
         "MoonBit/C#/Go/D: evaluated by an interpreter whose semantics table is a decision of the checker (see interp/mod.rs header): two's-complement wrapping explicit conversions (C# default unchecked context), no implicit conversions in Go/MoonBit, C# implicit widening only, D promotions/widening only; a body that needs a conversion the language does not have is reported as ill-typed. User-level types are taken from the signatures the generator itself emits (Go: stubs via generate_stubs).".to_string(),
